@@ -50,7 +50,7 @@ type lifeWorld struct {
 var lifeDocText = map[string]string{}
 
 var freshDocText = map[string]string{"d1": `{"a": 1, "c": 3, "abc": 2}`, "d2": `{"a": 1}`, "d3": `{"a": `, "d4": `{"c": 3}`,
-	"d5": `{"it": {"id": 5}}`, "d6": `{"it": {"id": 5, "name": "x"}}`}
+	"d5": `{"it": {"id": 5}}`, "d6": `{"it": {"id": 5, "name": "x"}}`, "d7": `{"a": 1}`, "d8": `{"a": 1, "b": 2}`}
 
 func newLifeWorld() *lifeWorld {
 	w := &lifeWorld{schemas: map[string]*jschema.Schema{}, docs: map[string]jlib.Document{}}
@@ -73,6 +73,14 @@ func newLifeWorld() *lifeWorld {
 	w.schemas["s6"] = jschema.New("s6", "{\n  \"it\": @item\n}")
 	_ = w.schemas["s6"].AddType("@item", item)
 	_ = w.schemas["s6"].AddType("@base", jschema.New("@base", "{\n  \"name\": \"abc\"\n}"))
+	// the parents of an allOf rule shared between a root that only names one of them and a root that inherits from both
+	pa := jschema.New("@A", "{\n  \"a\": 1\n}")
+	pb := jschema.New("@B", "{\n  \"b\": 2\n}")
+	w.schemas["s7"] = jschema.New("s7", "@A")
+	_ = w.schemas["s7"].AddType("@A", pa)
+	w.schemas["s8"] = jschema.New("s8", "{ // {allOf: [\"@A\", \"@B\"]}\n}")
+	_ = w.schemas["s8"].AddType("@A", pa)
+	_ = w.schemas["s8"].AddType("@B", pb)
 	for _, x := range []string{"x1", "x2", "x3"} {
 		w.docs[x] = jdoc.New(x, lifeDocText[x])
 	}
@@ -232,6 +240,11 @@ func init() {
 			}
 			if newLifeWorld().schemas["s5"].Check() == nil {
 				fatal("fixture s5 should be rejected by Check")
+			}
+			for _, n := range []string{"s7", "s8"} {
+				if err := newLifeWorld().schemas[n].Check(); err != nil {
+					fatal("fixture " + n + " is not a valid schema: " + err.Error())
+				}
 			}
 		}
 		// the same call on freshly built objects, computed once per operation instance
